@@ -14,6 +14,7 @@
 #include <cxxabi.h>
 #include <climits>
 #include <sys/wait.h>
+#include <dirent.h>
 
 namespace fe {
 using sm::Schema; using sm::Member; using sm::MsgDef;
@@ -90,6 +91,10 @@ template<class F> inline int run_chunked(vh::Run& R, long long chunk, F enumerat
 		R.finish(r >= 0); return 0;
 	}
 	const long long total = enumerate(0LL, 0LL, true);
+	{	// the forking process must be single-threaded (see the harnesses: the logger thread is started in the children only)
+		int nt = 0; if (DIR *d = opendir("/proc/self/task")) { while (struct dirent *e = readdir(d)) if (e->d_name[0] != '.') ++nt; closedir(d); }
+		if (nt > 1) { fprintf(stderr, "run_chunked: %d threads in the forking process\n", nt); return 3; }
+	}
 	bool done = true;
 	for (long long lo = 0; lo < total && done; lo += chunk) {
 		if (lo + chunk <= R.from) continue;
